@@ -19,6 +19,9 @@ analysis (RQA) and recurrence network analysis.
 """
 
 # array object and fast numerics
+from typing import Tuple
+from collections.abc import Hashable
+
 import numpy as np
 
 from ..core import Network
@@ -144,6 +147,13 @@ class RecurrenceNetwork(RecurrencePlot, Network):
             Network.__init__(self, A, directed=False,
                              node_weights=node_weights,
                              silence_level=silence_level)
+
+    def __cache_state__(self) -> Tuple[Hashable, ...]:
+        # NOTE: combine the states of *both* base classes; the MRO alone
+        # would select the first base's state only. The `Network` part does
+        # not exist yet while `RecurrencePlot.__init__()` runs.
+        return RecurrencePlot.__cache_state__(self) + (
+            Network.__cache_state__(self) if hasattr(self, "_mut_A") else ())
 
     def __str__(self):
         """
